@@ -1,6 +1,7 @@
 CONSTANT N = 8
 CONSTANT LateGuards = FALSE
 CONSTANT Deviation = "none"
+CONSTANT ExitKinds = {"return", "panic"}
 SPECIFICATION TSpec
 INVARIANT Safety
 POSTCONDITION Accepted
